@@ -48,7 +48,7 @@ def describe_cfg(cfg):
 # ---------------------------------------------------------------------- fs mutations
 
 OPS = ["create", "create", "overwrite", "append", "truncate", "delete", "rename", "move_disk", "copy",
-       "touch", "swap", "to_dir", "to_link", "mkdir", "rmdir_entry", "same_size_rewrite", "delete_create", "same_second_rewrite"]
+       "touch", "swap", "to_dir", "to_link", "mkdir", "rmdir_entry", "same_size_rewrite", "delete_create", "same_second_rewrite", "relink"]
 
 
 def _free_name(fs, rng, d, hostile):
@@ -183,6 +183,28 @@ def mutate(fs, rng, nops, hostile=0.15, ops=None, disks=None, maxblocks=5):
                     continue
                 fs.remove(d, sub)
                 fs.symlink(d, sub, rng.choice([b"target", b"/abs/target", b"../x", A.gen_name(rng, hostile)]))
+            elif op == "relink":
+                # an existing link name changes kind AND target: symbolic link -> hard link of some file, hard link -> symbolic
+                # link with some target text, or a symbolic link gets another target
+                links = [(s_, x) for s_, x in fs.entries[d].items() if x[0] in ("symlink", "hardlink")]
+                if not links:
+                    continue
+                s2, x = rng.choice(links)
+                plain = [s_ for (_d, s_) in files if not any(y[0] == "hardlink" and y[1] == s_ for y in fs.entries[d].values()) and s_ != s2]
+                if x[0] == "symlink" and plain and rng.random() < 0.6:
+                    fs.remove(d, s2)
+                    fs.hardlink(d, s2, rng.choice(plain))
+                    op = ("relink", d, s2, "symlink->hardlink")
+                elif x[0] == "hardlink" and rng.random() < 0.8:
+                    fs.remove(d, s2)
+                    fs.symlink(d, s2, rng.choice([b"elsewhere", b"/abs/other", b"../y", A.gen_name(rng, hostile)]))
+                    op = ("relink", d, s2, "hardlink->symlink")
+                elif x[0] == "symlink":
+                    fs.remove(d, s2)
+                    fs.symlink(d, s2, x[1] + b".moved")
+                    op = ("relink", d, s2, "retarget")
+                else:
+                    continue
             elif op == "mkdir":
                 s2 = _free_name(fs, rng, d, hostile)
                 if s2 is None:
@@ -399,6 +421,23 @@ def damage_data_disk(arr, fs, rng, d, how, state):
                 did = True
             except OSError:
                 pass
+    elif how == "rename-over":
+        # one file is gone and another one of the same disk sits under its name (rm X; mv Y X): name X now carries Y's
+        # bytes, time-stamp and inode number, Y is missing - preferably between files of equal size
+        if len(files) >= 2:
+            groups = {}
+            for s, e in files:
+                groups.setdefault(len(e[1]), []).append(s)
+            same = [g for g in groups.values() if len(g) >= 2]
+            for _ in range(rng.randint(1, 2)):
+                x, y = rng.sample(rng.choice(same), 2) if (same and rng.random() < 0.8) else rng.sample([s for s, _e in files], 2)
+                try:
+                    if os.path.isfile(fs.path(d, x)) and os.path.isfile(fs.path(d, y)) and os.lstat(fs.path(d, x)).st_nlink == 1 and os.lstat(fs.path(d, y)).st_nlink == 1:
+                        os.unlink(fs.path(d, x))
+                        os.rename(fs.path(d, y), fs.path(d, x))
+                        did = True
+                except OSError:
+                    pass
     elif how == "truncate":
         for s, e in rng.sample(files, rng.randint(1, len(files))):
             if len(e[1]) == 0:
